@@ -19,6 +19,7 @@ partial def toStmt : SExp → Option Stmt
   | .list [.atom "ret", .atom v] => v.toNat?.map Stmt.ret
   | .list [.atom "thr", .atom e] => e.toNat?.map Stmt.throw_
   | .list [.atom "sir"] => some .stopIfRequested
+  | .list [.atom "rs", .atom k] => k.toNat?.map Stmt.resched
   | _ => none
 partial def toProg : SExp → Option Prog
   | .list xs => xs.mapM toStmt
@@ -80,12 +81,21 @@ def renderOut : Out → String
   | .localsDead f => s!"ld{f}"
   | .cleanup f a => s!"cl{f}:{a}"
   | .frameDead f => s!"fd{f}"
+  | .sched k => s!"sq{k}"
   | .root o => s!"R={renderOutcome o}"
   | .terminate => "!!terminate"
   | .fuelOut => "!!fuel"
 
+/-- label 0 is the library-internal reschedule-back cleanup: its registration and its run are not
+    observable from outside (its `sq` is) -/
+def Out.hidden : Out → Bool
+  | .reg _ 0 => true
+  | .cleanup _ 0 => true
+  | _ => false
+
 def renderOuts (outs : List Out) : String :=
-  if outs.isEmpty then "-" else ",".intercalate (outs.map renderOut)
+  let vis := outs.filter (fun o => !o.hidden)
+  if vis.isEmpty then "-" else ",".intercalate (vis.map renderOut)
 
 /-- deliver one event and render what it added to the trace -/
 def stepEv (specs : Nat → LeafSpec) (s : St) (ev : Ev) : St × String :=
@@ -139,7 +149,8 @@ def runCase (line : String) : String :=
         let specs := specsOf ((words sp).filterMap parseSpec)
         match (words evs).mapM parseSEv with
         | some evl =>
-          let s0 := St.init prog (mode.trimAscii.toString != "man")
+          let m := mode.trimAscii.toString
+          let s0 := St.init prog (!(m.startsWith "man")) (!(m.endsWith ":u"))
           let (s1, r1) := runScript specs s0 evl []
           let (s2, r2) := drain specs 1000 s1 []
           let started := s2.ctl != .idle
